@@ -643,6 +643,52 @@ func (h *heapRun) apply(st Step, ret map[string]interface{}) error {
 			return err
 		}
 		ret["new"] = h.addAlign(c)
+	case "Extract":
+		// the composition `goalign extract` makes for one named region (cmd/extract.go), with the library calls it uses
+		al := needAlign(o)
+		ref := astr(a, "ref")
+		var sub align.Alignment
+		blocks := alist(a, "blocks")
+		if len(blocks) == 0 {
+			return fmt.Errorf("no block")
+		}
+		for _, b := range blocks {
+			m := b.(map[string]interface{})
+			s, e := ai(m, "s"), ai(m, "e")
+			l := e - s
+			if s < 0 || e > al.Length() {
+				return fmt.Errorf("coordinates are outside alignment: [%d,%d[", s, e)
+			}
+			if s >= e {
+				return fmt.Errorf("block length should be >0 : [%d,%d[", s, e)
+			}
+			if ref != "" {
+				var err error
+				if s, l, err = al.RefCoordinates(ref, s, l); err != nil {
+					return err
+				}
+			}
+			tmp, err := al.SubAlign(s, l)
+			if err != nil {
+				return err
+			}
+			if sub == nil {
+				sub = tmp
+			} else if err := sub.Concat(tmp); err != nil {
+				return err
+			}
+		}
+		if ab(a, "minus") {
+			if err := sub.ReverseComplement(); err != nil {
+				return err
+			}
+		}
+		if al.Alphabet() == align.NUCLEOTIDS && ai(a, "code") >= 0 {
+			if err := sub.Translate(0, ai(a, "code")); err != nil {
+				return err
+			}
+		}
+		ret["new"] = h.addAlign(sub)
 	case "SelectSites":
 		c, err := needAlign(o).SelectSites(aints(a, "sites"))
 		if err != nil {
